@@ -73,6 +73,12 @@ CHECKS = {
                     'signature over an exported class with overloaded, inherited and caller-aware members; a reference dispatch '
                     'table decides replies (count, addressing, kind, encoding, error naming) and whether user code may run.',
             'ref': 'DESIGN.md 2/C10', 'note': NOTE, 'technique': SYM + ' against a reference dispatch table'},
+    'C12': {'text': 'The real Rule.match / MessageRouter is compared with match-rule semantics written from the specification; for '
+                    'path_namespace, argN and argNpath both the rule value and the message path/argument are SYMBOLIC strings over '
+                    '{/, a, b} (every equal / prefix / sibling-prefix / trailing-slash relation up to the length bound); rule sets '
+                    'with add/remove histories and a raising callback; the rule text produced by addMatch and parsed by the bus; '
+                    'proxy signal subscriptions.',
+            'ref': 'DESIGN.md 2/C12', 'note': NOTE, 'technique': SYM + ' with symbolic strings against reference match semantics'},
 }
 _TODO = 'check not built yet in this revision (planned, see DESIGN.md section 2)'
 NOT_APPLICABLE = {('C%02d' % i): _TODO for i in range(1, 21)}
